@@ -116,6 +116,20 @@ theorem scram_rejects_missing_nonce (C : Crypto) (cr : Cred) (s : ScramSt) (sf :
   | nil => exact absurd hc hn
   | cons _ _ => rfl
 
+/-- **Documented surprise, stated so it cannot drift silently:** a server-first message whose nonce is *exactly* the
+client's (no server part at all — RFC 5802 §7 requires a non-empty `s-nonce`) is accepted: the check is
+`startsWith`, not "properly extends".  (The client nonce alone already protects the client against replay; the
+property's refusal clause is read as "does not have the client nonce as a prefix".) -/
+theorem scram_accepts_unextended_nonce (C : Crypto) (cr : Cred) (s : ScramSt) (sf : Bytes) (hstep : s.step = 1)
+    (hn : gs2Get (parseGS2 sf) 114 = cr.cnonce)
+    (hs : Base64.decodeLenient (gs2Get (parseGS2 sf) 115) ≠ [])
+    (hi : 1 ≤ toInt (gs2Get (parseGS2 sf) 105)) :
+    (scramStep C cr s sf).2.isSome = true := by
+  have hp : cr.cnonce.isPrefixOf (gs2Get (parseGS2 sf) 114) = true := by
+    rw [hn]; have := isPrefixOf_append cr.cnonce []; rwa [List.append_nil] at this
+  rw [scram_step1_ok C cr s sf hstep hp hs hi]
+  rfl
+
 /-- **Invalid parameters are refused** (as coded): a salt that decodes to nothing, or an iteration count whose
 `toInt` value is below 1. -/
 theorem scram_rejects_bad_params (C : Crypto) (cr : Cred) (s : ScramSt) (sf : Bytes) (hstep : s.step = 1)
@@ -397,6 +411,9 @@ example : (scramStep toyCrypto toyCred {} []).2 = some [110, 44, 44, 110, 61, 11
 example : ((scramStep toyCrypto toyCred (scramSt1 toyCred) [114, 61, 120, 121, 44, 115, 61, 81, 81, 61, 61, 44, 105, 61, 49]).2).isSome = true := by
   decide
 
+/-- an unextended nonce: `r=x,s=QQ==,i=1` against client nonce `x` -/
+example : gs2Get (parseGS2 [114, 61, 120, 44, 115, 61, 81, 81, 61, 61, 44, 105, 61, 49]) 114 = toyCred.cnonce := by decide
+
 /-- foreign nonce (`r=zz…` against client nonce `x`), bad parameters (`i=0`, `s=` empty, `i=abc`) -/
 example : ([120] : Bytes).isPrefixOf (gs2Get (parseGS2 [114, 61, 122, 122, 44, 115, 61, 81, 81, 61, 61, 44, 105, 61, 49]) 114) = false := by
   decide
@@ -429,8 +446,8 @@ example : Ref.plainServerVerify [117] [113] (Ref.plainMessage [117] [112]) = fal
 example : htStep toyCrypto { toyCred with htMech := 3, token := some (3, [116]) } false []
     = (true, some [117, 0, 1, 2]) := by decide
 
-/-- the manager: the honest server script (two challenges, then `<success/>`) meets the hypotheses of the partial
-theorem and does end in a verified success; the bare `<success/>` ends in an unverified one -/
+/-- the manager: the honest server script (two challenges, then `<success/>`) meets the hypotheses of
+the partial theorem and does end in a verified success; the bare `<success/>` ends in an unverified one -/
 example : (mgrRun toyCrypto id toyCred (mgrStart toyCrypto id toyCred false .scram).1
       [.challenge [114, 61, 120, 121, 44, 115, 61, 81, 81, 61, 61, 44, 105, 61, 49], .challenge [118, 61, 65, 103, 65, 61], .success none]).1.result
     = some .success := by decide
